@@ -83,7 +83,12 @@ namespace foonathan
               stack_(allocate_block()),
               pools_(stack_, block_end(), max_node_size)
             {
-                detail::check_allocation_size<bad_node_size>(max_node_size, def_capacity(), info());
+                // a reservation of the default capacity must give the largest pool at least one
+                // node: its node size may exceed max_node_size and the pool has overhead of its own
+                auto& largest = pools_.get(pools_.max_node_size());
+                detail::check_allocation_size<bad_node_size>(largest.node_size(),
+                                                             largest.usable_size(def_capacity()),
+                                                             info());
             }
 
             /// \effects Destroys the \ref memory_pool_collection by returning all memory blocks,
